@@ -91,6 +91,11 @@ type progCase struct {
 	// expectations set by the generator family (absent: valid program)
 	ExpectParse   string `json:"xp,omitempty"`
 	ExpectCompile string `json:"xc,omitempty"`
+	// Walk.tla's visit log for the program (C11)
+	Visits []struct {
+		P string `json:"p"`
+		T string `json:"t"`
+	} `json:"visits,omitempty"`
 	// the parser model's verdict on a token-only case ("ok" | "err"), for drift reporting
 	ModelParse string `json:"mp,omitempty"`
 }
@@ -439,6 +444,51 @@ func (pc *progChecker) checkGenerated(c *progCase, rng interface {
 			if msg := pc.walkChecks(text, s, sub, pc.prune); msg != "" {
 				res.violate(Violation{Property: "C11", Kind: "walk", InputB64: b64(text), Extra: extra, Reason: msg})
 				break
+			}
+		}
+		if len(c.Visits) > 0 {
+			// the real visits (always-true visitor) are exactly the nodes Walk.tla visits
+			res.Checks["walk_vs_spec"]++
+			want := map[string]int{}
+			for _, v := range c.Visits {
+				want[v.P+" "+v.T]++
+			}
+			index := map[parser.Node]int{}
+			for i, n := range nodes {
+				index[n.Node] = i
+			}
+			got := map[string]int{}
+			for _, s := range stmts {
+				guarded(text, "Walk", func() {
+					parser.Walk(s, func(n parser.Node) bool {
+						if isNilNode(n) {
+							got["<nil>"]++
+						} else if i, ok := index[n]; ok {
+							got[nodes[i].Path+" "+nodes[i].Type]++
+						} else {
+							got[fmt.Sprintf("<unlisted %T>", n)]++
+						}
+						return true
+					})
+				})
+			}
+			if !reflect.DeepEqual(want, got) {
+				diff := ""
+				for k, n := range want {
+					if got[k] != n {
+						diff = fmt.Sprintf("%s visited %d times, Walk.tla visits it %d times", k, got[k], n)
+						break
+					}
+				}
+				if diff == "" {
+					for k, n := range got {
+						if want[k] != n {
+							diff = fmt.Sprintf("%s visited %d times, Walk.tla visits it %d times", k, n, want[k])
+							break
+						}
+					}
+				}
+				res.violate(Violation{Property: "C11", Kind: "walk", InputB64: b64(text), Extra: extra, Reason: "visits differ from the specification's: " + diff})
 			}
 		}
 		// implicit column names are the source text of their expression (C10)
